@@ -201,11 +201,7 @@ func genC18(rt *rapid.T, minTx int) (*c18case, *sim.World) {
 		for i := 0; i < ntx; i++ {
 			if rapid.IntRange(0, 11).Draw(rt, "rollbackpattern") == 0 {
 				// a successful state change followed by a failing message in one transaction: the SDK discards both
-				a := g.AdminOp("rb/admin", 100, []string{"AddRemoteTokenMessenger", "RemoveRemoteTokenMessenger", "LinkTokenPair", "UnlinkTokenPair", "EnableAttester", "SetMaxBurnAmountPerMessage", "PauseBurningAndMinting", "UpdateMaxMessageBodySize"})
-				b := g.AdminOp("rb/fail", 0, []string{"UpdateOwner", "UpdatePauser"})
-				ops = append(ops, sim.Multi(a, b))
-				// ... and the same change once more on its own: it must behave as if never attempted
-				ops = append(ops, cloneOp(a))
+				ops = append(ops, rollbackProbe(g, "rb")...)
 				i++
 				continue
 			}
